@@ -21,6 +21,7 @@ CONSTANTS
   WakeSkipsAcceptAll = FALSE
   PauseKeepsRegistered = FALSE
   RejoinPausedNoAvail = TRUE
+  ResetSeparate = TRUE
 SPECIFICATION Spec
 VIEW View
 INVARIANTS C03_NoLostWake C04_BitsTrueWhenCalm
